@@ -27,6 +27,8 @@ META = {
 META['explanation'] += ' ' + 'R8: variant lists - every class but the last can decline with InvalidType.'
 
 META['explanation'] += ' ' + 'R2 also evaluates every factory that does not inherit the generic decoder as it is, with the real enumeration and the integers its class mentions. R11: a decoded code point reaches the attribute the composer writes at that position.'
+
+META['explanation'] += ' ' + 'R12 / R13: no module level container and no class level state is written by a decoder.'
 HERE = os.path.dirname(os.path.dirname(os.path.abspath(__file__)))
 
 
